@@ -271,6 +271,12 @@ Definition fill_template (template iri : str) (b e : nat) : str :=
 
 Definition is_some {X} (o : option X) : bool := match o with Some _ => true | None => false end.
 
+(* the source / TextPositionSelector object *)
+Definition source_object (iri : str) (b e : nat) : str :=
+  LIT "{ ""source"": " ++ q iri
+    ++ LIT ", ""selector"": { ""type"": ""TextPositionSelector"", ""start"": "
+    ++ dec_nat b ++ LIT ", ""end"": " ++ dec_nat e ++ LIT " } }".
+
 (* the TextSelector / AnnotationSelector-with-text arm of output_selector;
    result: text and whether a second pass was requested *)
 Definition out_text (st : storev) (c : config) (r t : nat) (nested second_pass : bool)
@@ -284,10 +290,7 @@ Definition out_text (st : storev) (c : config) (r t : nat) (nested second_pass :
           let iri := into_iri (r_id rv) (c_res_iri c) in
           let o1 :=
             if negb second_pass then
-              (if is_some (c_template c) && negb nested then LIT "[" else [])
-                ++ LIT "{ ""source"": " ++ q iri
-                ++ LIT ", ""selector"": { ""type"": ""TextPositionSelector"", ""start"": "
-                ++ dec_nat b ++ LIT ", ""end"": " ++ dec_nat e ++ LIT " } }"
+              (if is_some (c_template c) && negb nested then LIT "[" else []) ++ source_object iri b e
             else [] in
           if (negb nested && negb second_pass) || (nested && second_pass) then
             match c_template c with
@@ -420,6 +423,43 @@ Definition data_step (c : config) (ds : dstate) (d : datum) : dstate :=
 Definition GENERATOR : str :=
   LIT "  ""generator"": { ""id"": ""https://github.com/annotation/stam-rust"", ""type"": ""Software"", ""name"": ""STAM Library""  },".
 
+(* everything to_webannotation writes before the target *)
+Definition head_text (c : config) (av : annv) : str :=
+  let iri := match a_id av with Some i => Some (into_iri i (c_ann_iri c)) | None => None end in
+  let ds := fold_left (data_step c) (a_data av) dstate0 in
+  LIT "{ ""@context"": " ++ serialize_context c ++ LIT ","
+    ++ (match iri with Some i => LIT "  ""id"": " ++ q i ++ LIT "," | None => [] end)
+    ++ LIT " ""type"": ""Annotation"","
+    ++ main_out ds
+    ++ (if to_main ds then [44] else [])
+    ++ (match c_generated c with
+        | Some now => if sup_generated ds then [] else LIT " ""generated"": " ++ q now ++ LIT ","
+        | None => []
+        end)
+    ++ (if c_generator c && negb (sup_generator ds) then GENERATOR else [])
+    ++ (if is_nil (body_out ds) then []
+        else LIT " ""body"": {"
+               ++ (if sup_type ds then [] else LIT " ""type"": ""Dataset"",")
+               ++ (if sup_id ds then []
+                   else match iri with
+                        | Some i => LIT " ""id"": " ++ q (i ++ LIT "/body") ++ LIT ","
+                        | None => []
+                        end)
+               ++ body_out ds ++ LIT "},").
+
+(* the target member: one pass, or two when a template is configured and text is nested *)
+Definition target_text (st : storev) (c : config) (s : sel) : option str :=
+  match output_selector st c false false s with
+  | None => None
+  | Some (first, need_second) =>
+      if need_second then
+        match output_selector st c false true s with
+        | None => None
+        | Some (second, _) => Some (LIT " ""target"": [ " ++ first ++ LIT ", " ++ second ++ LIT " ]")
+        end
+      else Some (LIT " ""target"": " ++ first)
+  end.
+
 (* ResultItem<Annotation>::to_webannotation; Some [] = the annotation is refused (empty string) *)
 Definition to_webannotation (st : storev) (c : config) (a : nat) : option str :=
   match get_ann st a with
@@ -428,38 +468,9 @@ Definition to_webannotation (st : storev) (c : config) (a : nat) : option str :=
       match a_target av with
       | SKey | SData => Some []
       | _ =>
-          let iri := match a_id av with Some i => Some (into_iri i (c_ann_iri c)) | None => None end in
-          let ds := fold_left (data_step c) (a_data av) dstate0 in
-          let head :=
-            LIT "{ ""@context"": " ++ serialize_context c ++ LIT ","
-              ++ (match iri with Some i => LIT "  ""id"": " ++ q i ++ LIT "," | None => [] end)
-              ++ LIT " ""type"": ""Annotation"","
-              ++ main_out ds
-              ++ (if to_main ds then [44] else [])
-              ++ (match c_generated c with
-                  | Some now => if sup_generated ds then [] else LIT " ""generated"": " ++ q now ++ LIT ","
-                  | None => []
-                  end)
-              ++ (if c_generator c && negb (sup_generator ds) then GENERATOR else [])
-              ++ (if is_nil (body_out ds) then []
-                  else LIT " ""body"": {"
-                         ++ (if sup_type ds then [] else LIT " ""type"": ""Dataset"",")
-                         ++ (if sup_id ds then []
-                             else match iri with
-                                  | Some i => LIT " ""id"": " ++ q (i ++ LIT "/body") ++ LIT ","
-                                  | None => []
-                                  end)
-                         ++ body_out ds ++ LIT "},") in
-          match output_selector st c false false (a_target av) with
+          match target_text st c (a_target av) with
           | None => None
-          | Some (first, need_second) =>
-              if need_second then
-                match output_selector st c false true (a_target av) with
-                | None => None
-                | Some (second, _) =>
-                    Some (head ++ LIT " ""target"": [ " ++ first ++ LIT ", " ++ second ++ LIT " ]" ++ LIT "}")
-                end
-              else Some (head ++ LIT " ""target"": " ++ first ++ LIT "}")
+          | Some t => Some (head_text c av ++ t ++ LIT "}")
           end
       end
   end.
